@@ -24,6 +24,7 @@ def parseEv (ws : List String) : Option Ev :=
   | ["lock", i, "I", snap] => do some (.lockI (← i.toNat?) snap.toList)
   | ["lock", x, "Q", snap] => do some (.lockQ (← parseWho x) snap.toList)
   | ["lock", "W", "Q"] => some (.lockQ .w [])
+  | ["lock", "W", "I"] => none
   | ["unlock", i, "I"] => do some (.unlockI (← i.toNat?))
   | ["unlock", x, "Q"] => do some (.unlockQ (← parseWho x))
   | ["create", i] => do some (.create (← i.toNat?))
@@ -80,6 +81,8 @@ def addLine (a : TAcc) (line : String) : TAcc :=
   | "unfilled" :: _ => { a with bad := some (a.n, "event slot never filled") }
   | "note" :: rest => { a with bad := some (a.n, "unexpected callback/signal: " ++ " ".intercalate rest) }
   | "bad-op" :: _ => { a with bad := some (a.n, "bad-op") }
+  | ["lock", "W", "I"] => { a with bad := some (a.n, "a resolver thread locks a second queue mutex (two contexts)") }
+  | ["unlock", "W", "I"] => { a with bad := some (a.n, "a resolver thread unlocks a second queue mutex (two contexts)") }
   | ["gacall", _, "-1", _, _] => { a with bad := some (a.n, "getaddrinfo called for something that is not a submitted request") }
   | _ =>
     match parseEv ws with
